@@ -1286,21 +1286,16 @@ namespace
             return {};
         }
         auto val = params[1];
-        auto oldsize = arr->size();
+        if (!val.empty() && val.data()->reaches(arr.get()))
+        { // the value leads back to the array: a refused set leaves the array as it was (it does not even grow)
+            runtime.__logmsg(err::ArrayRecursion(runtime.context_active().current_frame().diag_info_from_position()));
+            return {};
+        }
         if (static_cast<int>(arr->size()) <= index)
         {
             arr->resize(index + 1);
         }
-        auto oldval = (*arr)[index];
         (*arr)[index] = val;
-        if (!arr->recursion_test())
-        {
-            (*arr)[index] = oldval;
-            // a refused set leaves the array as it was, also when it had grown for it
-            arr->resize(oldsize);
-            runtime.__logmsg(err::ArrayRecursion(runtime.context_active().current_frame().diag_info_from_position()));
-            return {};
-        }
         return {};
     }
     value plus_array(runtime& runtime, value::cref right)
@@ -1339,13 +1334,15 @@ namespace
         auto arr = left.data<d_array>();
         // copy of the elements: the right array may be the left one itself (`_a append _a`)
         auto r = right.data<d_array>()->value();
-        auto oldsize = arr->size();
-        arr->insert(arr->end(), r.begin(), r.end());
-        if (!arr->recursion_test())
-        { // the appended elements lead back to the array itself: refuse, like pushBack and set do
-            arr->resize(oldsize);
-            runtime.__logmsg(err::ArrayRecursion(runtime.context_active().current_frame().diag_info_from_position()));
+        for (auto& element : r)
+        {
+            if (!element.empty() && element.data()->reaches(arr.get()))
+            { // an appended element leads back to the array itself: refuse, like pushBack and set do
+                runtime.__logmsg(err::ArrayRecursion(runtime.context_active().current_frame().diag_info_from_position()));
+                return {};
+            }
         }
+        arr->insert(arr->end(), r.begin(), r.end());
         return {};
     }
     value arrayintersect_array_array(runtime& runtime, value::cref left, value::cref right)
